@@ -224,6 +224,15 @@ def monitor(case: str, out: str) -> list[str]:
 # ------------------------------------------------------------------------------------------------
 # cases
 
+def extra_obligations():
+    """`MetricsContext.scope` regenerated from /repo's metrics.py as a MiniPy term: outside any scope the new scope gets the
+    trace id and logger as given and no parent; inside one it gets the caller's trace id / logger when given and otherwise the
+    ENCLOSING scope's, with the enclosing scope as parent - exactly what `Logs.mkScope` assumes; one ScopeMetrics built, wrapped once"""
+    from harness import core, regen
+
+    return regen.check("logscope", core.REPO, core.LEAN)
+
+
 def corpus():
     cs = [
         # nested scope without own trace id inherits (pinned defect: fresh id)
